@@ -1,4 +1,4 @@
-import NdnVerif.Driver.Common
+import NdnVerif.C18.DriverLoop
 import NdnVerif.C19.Model
 import NdnVerif.C19.Spec
 open Ndn Ndn.Driver Ndn.C19
@@ -166,6 +166,8 @@ structure LogSt where
   sSeq : Nat
   sSet : List Nat := []
   hist : List (Nat × List Nat) := []
+  /-- what each peer had outstanding at its previous output (to recognise a newly issued Interest) -/
+  lastPend : List (Nat × String) := []
 
 def idsText (l : List Nat) : String := dashIfEmpty (".".intercalate ((Spec.sortNat l).map toString))
 
@@ -235,7 +237,19 @@ def specPeerCheck (s : LogSt) (b : Nat) (got : String) : List SpecFail :=
       if pe == "-" && fe == "0" && la.toNat? == some s.sSeq && known != s.sSeq then
         [⟨"log-complete", "behind", s!"peer {b} knows the latest sequence {s.sSeq}, has nothing outstanding, but stays at {known}"⟩]
       else []
-    replayFail ++ completeFail
+    -- a newly issued Interest follows the fetch rule: sequence gap > 100 forces a snapshot
+    let latest := la.toNat?.getD 0
+    let prev := ((s.lastPend.find? (·.1 == b)).map (·.2)).getD "-"
+    let ruleFail :=
+      if pe == prev || pe == "-" then []
+      else if pe == "snap" then
+        (if latest > known + 100 then [] else
+          [⟨"log-snapshot-rule", "snapshot-too-early", s!"peer {b} fetches a snapshot although the gap {latest}-{known} is not above 100"⟩])
+      else if pe == s!"seq:{known + 1}" then
+        (if latest > known + 100 then
+          [⟨"log-snapshot-rule", "no-snapshot", s!"peer {b} fetches operation {known + 1} although the gap {latest}-{known} is above 100"⟩] else [])
+      else [⟨"log-snapshot-rule", "wrong-interest", s!"peer {b} at {known} (latest {latest}) asks for {pe}"⟩]
+    replayFail ++ completeFail ++ ruleFail
   | _, _, _, _, _ => [⟨"log-replay", "unparsable", got⟩]
 
 inductive St where
@@ -245,6 +259,12 @@ inductive St where
 
 def stripNoReply (got : String) : String :=
   if got.startsWith "noreply " then (got.drop 8).toString else got
+
+def notePend (s : LogSt) (b : Nat) (got : String) : LogSt :=
+  if got == "skip" then s else
+  match parseField (stripNoReply got) "pend" with
+  | some pe => { s with lastPend := (b, pe) :: s.lastPend.filter (·.1 != b) }
+  | none => s
 
 def stepFib (s : FibSt) (f : List String) (got : String) : StepResult St :=
   -- spec side first (independent of the model)
@@ -256,7 +276,8 @@ def stepFib (s : FibSt) (f : List String) (got : String) : StepResult St :=
     { st := .fib s', expected := some (dumpFib cmds s'), spec := fails,
       cov := cov ++ (if cmds.any (fun c => match c with | .register .. => true | _ => false) then ["cmd-register"] else []) ++
                     (if cmds.any (fun c => match c with | .unregister .. => true | _ => false) then ["cmd-unregister"] else []) ++
-                    (if s'.fib.prefixes.any (fun (_, es) => es.length ≥ 3) then ["multi-homed"] else []),
+                    (if s'.fib.prefixes.any (fun (_, es) => es.length ≥ 3) then ["three-faces"] else []) ++
+                    (if (desired (prefixOfKeys s'.keys) s'.t).any (fun (_, fes) => fes.length ≥ 4) then ["multi-homed"] else []),
       nontrivial := !s'.fib.prefixes.isEmpty }
   match f with
   | ["ping", w, face, act] =>
@@ -356,6 +377,7 @@ def stepLog (s : LogSt) (f : List String) (got : String) : StepResult St :=
       | none => skip
       | some (b, q) =>
         let fails := if got == "skip" then [] else specPeerCheck s b (stripNoReply got)
+        let s := notePend s b got
         if op == "deliver" then
           match q.deliver s.pub with
           | none => { skip with spec := fails }
@@ -379,6 +401,7 @@ def stepLog (s : LogSt) (f : List String) (got : String) : StepResult St :=
       let high := if off < s.pub.seq.toNat then s.pub.seq - UInt64.ofNat off else s.pub.seq
       let q' := q.sync high
       let fails := if got == "skip" then [] else specPeerCheck s b got
+      let s := notePend s b got
       { st := .log { s with peers := setPeer s.peers (b - 1) q' }, expected := some (dumpPeer q'), spec := fails,
         cov := [match q'.pend, q.pend with
                 | some .snap, none => "sync-wants-snapshot"
@@ -427,4 +450,4 @@ def step (st : St) (op : String) (got : String) : StepResult St :=
 
 end C19Drv
 
-def main : IO Unit := Ndn.Driver.run C19Drv.St.none C19Drv.step
+def main : IO Unit := Ndn.Driver.runResilient C19Drv.St.none C19Drv.step
